@@ -240,6 +240,18 @@ func c12Monitor(args []string) int {
 					rep.Violate("stop-not-prompt", in(), el.String())
 				}
 			case 4:
+				if rng.Chance(35) { // pondering without a clock: ponderhit ends it at once (time budget 0)
+					do([]string{"go ponder depth 2", "go ponder"}[rng.Intn(2)])
+					goCount++
+					time.Sleep(time.Duration(rng.Intn(15)) * time.Millisecond)
+					do("ponderhit")
+					if !s.waitCount("bestmove", before+1, 10*time.Second) {
+						rep.Violate("no-bestmove", in(), "after ponderhit on a ponder search without clock")
+						do("stop")
+						s.waitCount("bestmove", before+1, 10*time.Second)
+					}
+					break
+				}
 				do("go ponder wtime 300 btime 300")
 				goCount++
 				time.Sleep(time.Duration(rng.Intn(25)) * time.Millisecond)
